@@ -1,5 +1,5 @@
 (* Extraction of the XPath interpreter model (and the data model builder). ExtrOcamlBasic only. *)
 Require Import ExtrOcamlBasic.
-Require Import XV.NumDefs XV.XpAst XV.DomDefs XV.XpDefs.
+Require Import XV.NumDefs XV.XpAst XV.DomDefs XV.XpDefs XV.XpCpDefs XV.XpCpTree.
 Extraction "extracted/xp_model.ml"
-  build_doc eval_top to_string to_number to_boolean to_bits of_bits mkCtx.
+  build_doc eval_top eval_this_tree to_string to_number to_boolean to_bits of_bits mkCtx.
